@@ -108,6 +108,16 @@ def _rec_nas(self, node_id, compute=False, *a, **kw):
 _sdm.SuccessionDiagram.node_attractor_candidates = _rec_nac
 _sdm.SuccessionDiagram.node_attractor_seeds = _rec_nas
 
+# ---- attractor-seed expansion: record the NFVS used for every examined successor ----
+_NFVS = {"on": False, "log": []}
+_orig_nfvs = _sdm.SuccessionDiagram.node_percolated_nfvs
+def _rec_nfvs(self, node_id, compute=False):
+    r = _orig_nfvs(self, node_id, compute)
+    if _NFVS["on"]:
+        _NFVS["log"].append(list(r))
+    return r
+_sdm.SuccessionDiagram.node_percolated_nfvs = _rec_nfvs
+
 def classify_exc(e):
     if isinstance(e, RuntimeError):
         return "raised:motiflimit" if "stable motifs" in str(e) else "raised:runtime"
@@ -194,7 +204,15 @@ def apply_real(sd, op, nm):
         elif k == "scc":
             r = str(sd.expand_scc(find_motif_avoidant_attractors=op[1])).lower()
         elif k == "aseeds":
-            r = str(sd.expand_attractor_seeds(size_limit=op[1])).lower()
+            sp = dict(sd.node_data(0)["space"])
+            _NFVS["on"] = True; _NFVS["log"] = []
+            try:
+                r = str(sd.expand_attractor_seeds(size_limit=op[1])).lower()
+            finally:
+                _NFVS["on"] = False
+                mt = (";".join(sp2s(sp | x, nm) for x in _TAPE[0]) or "-") if _TAPE else "-"
+                nt = "/".join((",".join(str(nm.index(v)) for v in l) or "~") for l in _NFVS["log"]) or "-"
+                tape = (mt, nt)
         elif k == "build":
             sd.build(); r = "unit"
         elif k == "seeds_all":
@@ -235,6 +253,8 @@ def model_cmd(op, tape):
         return f"op skipmin {op[1]} {tape or '-'}"
     if k == "skiprem":
         return f"op skiprem {tape or '-'}"
+    if k == "aseeds":
+        return f"aseeds {opt(op[1])} {tape[0] if tape else '-'} {tape[1] if tape else '-'}"
     if k == "block":
         return f"block {int(op[1])} {int(op[3])} {opt(op[2])} {tape or '-'}"
     if k == "cands":
@@ -313,6 +333,8 @@ def gen_history(rng, n, max_len=6, kinds=("expand", "bfs", "dfs", "min", "target
             h.append(("skiprem",))
         elif k in ("reclaim", "pickle"):
             h.append((k,))
+        elif k == "aseeds":
+            h.append(("aseeds", lim()))
         elif k == "block":
             h.append(("block", rng.random() < 0.7, lim(), rng.random() < 0.6, rng.random() < 0.15))
         elif k == "blockplain":       # block expansion without source shortcuts (a "plain" expansion call)
